@@ -136,3 +136,4 @@ def run(ctx):
     ctx.fn("ural.utils.normpath")
     from .common_url import normpath_table
     normpath_table(ctx, "R7", 5 if ctx.tier == "thorough" else 4)
+    T.rule_lrutrie_model(ctx, "R8", 3 if ctx.tier == "thorough" else 2)
